@@ -4,7 +4,8 @@
 //! them (see the `shapes!` list in `src/bin/c03.rs`) is a concrete, non-erased tachys view type whose
 //! own `Render::{build, rebuild}` and `Mountable` impls run.  `AnyView` is decoded through the
 //! registry of top-level shapes (type tokens -> `into_any()` of that concrete type).
-use crate::dynv::{ATy, AVal, TyD, ValD};
+use crate::dynv::{ATy, AVal, TextKind, TyD, ValD};
+use std::{borrow::Cow, sync::Arc};
 use std::sync::OnceLock;
 use tachys::{
     either::{Either, EitherOf3},
@@ -101,8 +102,67 @@ impl Dec for String {
         TyD::Text
     }
     fn from_val(v: &ValD) -> Option<Self> {
+        crate::dynv::text_of(v)
+    }
+}
+
+/// a text value as a `&'static str`: a fresh (leaked) allocation for `Text`, a slice of the ONE
+/// interned allocation of the buffer for `Slice` (so equal-start slices share their address)
+fn static_text(v: &ValD) -> Option<&'static str> {
+    match v {
+        ValD::Text(s) => Some(Box::leak(s.clone().into_boxed_str())),
+        ValD::Slice { buf, start, len } => intern(buf).get(*start..start + len),
+        _ => None,
+    }
+}
+
+impl Dec for &'static str {
+    fn ty() -> TyD {
+        TyD::TextK(TextKind::Str)
+    }
+    fn from_val(v: &ValD) -> Option<Self> {
+        static_text(v)
+    }
+}
+
+impl Dec for Cow<'static, str> {
+    fn ty() -> TyD {
+        TyD::TextK(TextKind::Cow)
+    }
+    fn from_val(v: &ValD) -> Option<Self> {
         match v {
-            ValD::Text(s) => Some(s.clone()),
+            ValD::Text(s) => Some(Cow::Owned(s.clone())),
+            ValD::Slice { .. } => Some(Cow::Borrowed(static_text(v)?)),
+            _ => None,
+        }
+    }
+}
+
+/// `Arc<str>` values are interned by contents: two values are the same `Arc` iff they are equal
+/// (`Arc<str>::rebuild` compares pointers)
+impl Dec for Arc<str> {
+    fn ty() -> TyD {
+        TyD::TextK(TextKind::Arc)
+    }
+    fn from_val(v: &ValD) -> Option<Self> {
+        use std::{collections::HashMap, sync::Mutex};
+        static TABLE: OnceLock<Mutex<HashMap<String, Arc<str>>>> = OnceLock::new();
+        let s = crate::dynv::text_of(v)?;
+        let mut t = TABLE.get_or_init(|| Mutex::new(HashMap::new())).lock().unwrap();
+        Some(t.entry(s.clone()).or_insert_with(|| Arc::from(s.as_str())).clone())
+    }
+}
+
+impl<T: Dec, const N: usize> Dec for [T; N] {
+    fn ty() -> TyD {
+        TyD::Arr(N, Box::new(T::ty()))
+    }
+    fn from_val(v: &ValD) -> Option<Self> {
+        match v {
+            ValD::Tuple(vs) if vs.len() == N => {
+                let items: Vec<T> = vs.iter().map(T::from_val).collect::<Option<_>>()?;
+                items.try_into().ok()
+            }
             _ => None,
         }
     }
